@@ -190,13 +190,50 @@ def showExtra (x : Extra) : String :=
     "mac:" ++ showRes (showItems showMacRecord) x.mac ++ s!"/{x.macPrinted}",
     "boot:" ++ showRes showBootargs x.bootargs]
 
+/-! ### the third group (`MdModel.DumpFull.readMore`) -/
+
+def showOptNatList (l : List (Option Nat)) : String := Proto.joinWith "," (l.map showOptNat)
+
+def showNats (l : List Nat) : String := Proto.joinWith "." (l.map toString)
+
+def showMiscTz (t : MiscTimeZone) : String :=
+  s!"{t.bias}:{showOptName t.standardName}:{showNats t.standardDate}:{t.standardBias}:{showOptName t.daylightName}:" ++
+    s!"{showNats t.daylightDate}:{t.daylightBias}"
+
+def showMisc (m : MiscPrinted) : String :=
+  s!"ok {m.ver}/{showOptNatList m.simple}/tz" ++ (match m.timeZone with
+    | none => "-"
+    | some t => "=" ++ showMiscTz t) ++ s!"/bs{showOptName m.buildString}/dbs{showOptName m.dbgBldStr}/xs" ++
+    (match m.xstate with
+     | none => "-"
+     | some fs => "=" ++ Proto.joinWith "," (fs.map fun (i, o, z) => s!"{i}:{o}:{z}"))
+
+def showMore (x : More) : String :=
+  Proto.joinWith " | " [
+    "misc:" ++ showRes showMisc x.misc]
+
+def renderWhole (r : M (Except Err Whole)) : Option String :=
+  match r.res with
+  | .panic _ => none
+  | .err e => some ("hdr:err " ++ e.name)    -- not produced (errors are values)
+  | .ok (.error e) => some ("hdr:err " ++ e.name)
+  | .ok (.ok w) => some (showParsed w.full.base ++ " | " ++ showExtra w.full.extra ++ " | " ++ showMore w.more)
+
+/-- The driver runs `readWhole`. When it reaches a panic outcome (the Linux-maps reader on a hostile
+    line is the only way, theorem `whole_panics_iff`) the line is rendered from the run in which
+    that one operation is wrapped the way the harness wraps it (`catch_unwind`), so that every other
+    group can still be compared; the maps group then reads `PANIC:<site class>`. -/
 def answerRead (ms : MemSizes) (b : Bytes) : String :=
-  let r := readFull ms b
-  (match r.res with
-   | .panic site => "PANIC " ++ site
-   | .err e => "hdr:err " ++ e.name    -- not produced by `readFull` (errors are values)
-   | .ok (.error e) => "hdr:err " ++ e.name
-   | .ok (.ok f) => showParsed f.base ++ " | " ++ showExtra f.extra) ++ " ## " ++ showAllocs r.allocs
+  let r := readWhole ms b
+  match renderWhole r with
+  | some line => line ++ " ## " ++ showAllocs r.allocs
+  | none =>
+    let r' := readWholeWith true ms b
+    match renderWhole r' with
+    | some line => line ++ " ## " ++ showAllocs r'.allocs
+    | none => (match r'.res with
+      | .panic site => "PANIC " ++ site
+      | _ => "PANIC") ++ " ## " ++ showAllocs r'.allocs
 
 /-- line-protocol entry point of this model (engine(s): read, roundtrip) -/
 def handle (engine : String) (args : List String) : String :=
